@@ -37,6 +37,35 @@ theorem history_independent (reg : Reg) (hist : List Open) (probe : Open) :
     (openStep (runHist reg hist).1 probe).2 = (openStep reg probe).2 := by
   rw [history_registry]
 
+/-- **C15 with registrations.** After any history of opens *and* reader registrations the registry is the initial one
+with the registrations applied in order — no open leaves a trace, whatever was opened and however often … -/
+theorem events_registry : ∀ (evs : List Event) (reg : Reg), (runEvents reg evs).1 = registrations reg evs
+  | [], reg => rfl
+  | .opn o :: rest, reg => by
+    have hf := step_frame reg o
+    simp only [runEvents, registrations]
+    rw [show (openStep reg o) = ((openStep reg o).1, (openStep reg o).2) from rfl]
+    simp only [hf]
+    exact events_registry rest reg
+  | .reg n r :: rest, reg => by
+    simp only [runEvents, registrations]
+    exact events_registry rest (register reg n r)
+
+/-- … hence the reader selected for a probe depends only on the probe file and on which readers were registered (and
+in which order), not on the files opened before or between the registrations: a reader registered after the
+first auto-detecting open is found exactly as if it had been registered before it. -/
+theorem events_independent (reg : Reg) (evs : List Event) (probe : Open) :
+    (openStep (runEvents reg evs).1 probe).2 = (openStep (registrations reg evs) probe).2 := by
+  rw [events_registry]
+
+/-- a newly registered reader is searched first: it is selected for every file it accepts -/
+theorem registered_first (reg : Reg) (n : String) (r : Nat) (acc : Nat → Ans)
+    (hnew : (reg.map (·.1)).contains n = false) (hno : rdictGet (register reg n r) "" = none) (hacc : acc r = .yes) :
+    (getreader (register reg n r) "" acc).2 = .ok r := by
+  have hreg : register reg n r = (n, r) :: reg := by unfold register; rw [hnew]; rfl
+  rw [hreg] at hno ⊢
+  simp only [getreader, getreaderWith, searchList, hno, choose, hacc]
+
 /-- **C15 idempotence**: opening the same file twice selects the same reader twice. -/
 theorem repeat_same (reg : Reg) (o : Open) :
     (runHist reg [o, o]).2 = [(openStep reg o).2, (openStep reg o).2] := by
